@@ -137,6 +137,24 @@ elif CMD == 'build':
               {'lua': b'mvalue = 5'})
         build('--lua main2.lua without the load path: must fail', ['--lua', os.path.join(work, 'main2.lua')], os.path.join(work, 'out_d' + ext), {}, must_fail=True)
         build('--gfx A --empty-gfx: must fail', ['--gfx', srcs[('gfx', '.p8')][0], '--empty-gfx'], os.path.join(work, 'out_b' + ext), {}, must_fail=True)
+elif CMD == 'buildlua':
+    # `build OUT --lua FILE.lua` copies the code: the cart must carry the source bytes (a final line end is supplied)
+    for i, code in enumerate((b'x = 1\ny = 2\n', b'x = 1\r\ny = 2\r\n', b'x = 1\r\ny = 2', b's = [[one\r\ntwo]]\r\nz = 3\n', b'a = 1 \r b = 2\n',
+                              b'-- c\r\n--[[ block\r\n]]\r\nx = "\\065"\r\n', b'x=1')):
+        for ext in ('.p8', '.p8.png'):
+            n += 1
+            srcf = os.path.join(work, 'src%d.lua' % n); out = os.path.join(work, 'built%d%s' % (n, ext))
+            open(srcf, 'wb').write(code)
+            try:
+                rc = run(['build', out, '--lua', srcf])
+            except BaseException as e:
+                bad.append(['build --lua (source %d)' % i, 'p8tool raised %s' % type(e).__name__]); continue
+            if rc not in (0, None) or not os.path.exists(out):
+                bad.append(['build --lua (source %d)' % i, 'p8tool returned %r' % (rc,)]); continue
+            got = code_of(out)
+            want = code.replace(b'\r', b' ') if ext == '.p8.png' else code          # (the .p8.png reader turns CR into a blank: C04's normalisation)
+            if got.rstrip(b'\n') != want.rstrip(b'\n'):
+                bad.append(['build %s --lua FILE.lua' % ext, 'the built cart has code %r, the source is %r' % (got[:80], code[:80])])
 else:
     for code in PROGRAMS:
         one('writep8', [], code, None, None)
